@@ -106,4 +106,68 @@ def answer (cmd : String) (toks : List String) : String :=
     | _ => "bad-op"
   | [] => "bad-op"
 
+/-! ### routines that convert a count with `T::from_usize` (the three covariance routines)
+
+`@ userw <routine> <wrapping_i8|wrapping_u8|wrapping_i16> <RxC:v,…>`: the documented contract is
+"the zero meaned dot product of the two feature vectors divided by the number of samples", with a
+panic ("… cannot represent this many samples") when the element type cannot represent the number
+of samples — i.e. exactly when `from_usize` fails, which `C19.wrapper_some_iff_representable`
+characterises. -/
+
+def sumW (t : IntTy) (l : List (Val t)) : Val t := l.foldl (wAdd t) (wrapZero t)
+
+def covarianceW (t : IntTy) (features : List (List (Val t))) (samples : Nat) : String :=
+  match wrapFromUsize t (BitVec.ofNat 64 samples) with
+  | none => "panic(samples-not-representable)"
+  | some n =>
+    let means : Outcome (List (Val t)) := features.mapM fun f => wDiv t (sumW t f) n
+    let res : Outcome (List (Val t)) := do
+      let ms ← means
+      let fm := features.zip ms
+      (fm.flatMap fun (fi, mi) => fm.map fun (fj, mj) => (fi, mi, fj, mj)).mapM fun (fi, mi, fj, mj) =>
+        wDiv t (sumW t (List.zipWith (fun x y => wMul t (wSub t x mi) (wSub t y mj)) fi fj)) n
+    match res with
+    | .panic k => s!"panic({k})"
+    | .ok vals =>
+      let k := features.length
+      s!"{k}x{k}:" ++ ",".intercalate (vals.map fun v => toString (toInt t v))
+
+def transposeL {α : Type} (m : List (List α)) : List (List α) :=
+  match m with
+  | [] => []
+  | r :: _ =>
+    let arrs := m.map List.toArray
+    (List.range r.length).map fun j => arrs.filterMap fun row => row[j]?
+
+def chunksL {α : Type} (l : List α) (c : Nat) : List (List α) :=
+  if c = 0 then [] else
+    let rec go (fuel : Nat) (l : List α) (acc : Array (List α)) : Array (List α) :=
+      match fuel with
+      | 0 => acc
+      | fuel + 1 => go fuel (l.drop c) (acc.push (l.take c))
+    (go (l.length / c) l #[]).toList
+
+def answerCounting (toks : List String) : String :=
+  match toks with
+  | [routine, elem, arg] =>
+    let ty : Option IntTy := match elem with
+      | "wrapping_i8" => some .i8 | "wrapping_u8" => some .u8 | "wrapping_i16" => some .i16 | _ => none
+    match ty, arg.splitOn ":" with
+    | some t, [dims, vals] =>
+      match dims.splitOn "x" with
+      | [r, c] =>
+        match r.toNat?, c.toNat?, (splitComma vals).mapM String.toInt? with
+        | some r, some c, some vs =>
+          if vs.length ≠ r * c ∨ vs.any (fun i => i < t.minInt ∨ t.maxInt < i) then "bad-op" else
+          let rows := chunksL (vs.map (ofInt t)) c
+          if ["covariance_column_features", "matrix_covariance_column_features", "covariance_tensor_columns"].contains routine then
+            covarianceW t (transposeL rows) r
+          else if ["covariance_row_features", "matrix_covariance_row_features", "covariance_tensor_rows"].contains routine then
+            covarianceW t rows c
+          else "bad-op"
+        | _, _, _ => "bad-op"
+      | _ => "bad-op"
+    | _, _ => "bad-op"
+  | _ => "bad-op"
+
 end Driver.C19Wrap
